@@ -40,6 +40,13 @@ EXTERNAL_FIELDS = {'_simulator', '_model', '_vanilla_model', '_log_prior',
                    '_initial_params', '_transform'}
 
 
+# evaluation methods use fields as scratch space; they do not configure
+EVALS = {'__call__', 'evaluateS1', 'compute_log_likelihood',
+         'compute_pointwise_ll', 'compute_sensitivities',
+         'compute_individual_parameters', 'compute_population_parameters',
+         'sample', 'simulate', 'get_mean_and_std'}
+
+
 def _family(rel):
     return 'plots' if rel.startswith(PLOTS) else 'lib'
 
@@ -55,6 +62,8 @@ class CallGraph:
             self.defs.setdefault(key, (rel, fn))
             self.by_name.setdefault(fn.name, []).append(key)
         self._succ = {}
+        self._loc = {}
+        self._weak = set()      # edges resolved by method name only
 
     def _resolve_all(self, cls, m):
         """Definitions of m that a receiver of static class `cls` (or a
@@ -86,9 +95,10 @@ class CallGraph:
                 elif ('', f.id) in self.defs and \
                         self.defs[('', f.id)][0] == rel:
                     out.add(('', f.id))
-                elif f.id not in BUILTINS:
+                elif f.id not in BUILTINS and f.id in self._locals(fn):
                     # calling a local object: its __call__
-                    out |= self._object_call(f, cls, fn, rel)
+                    got = self._object_call(f, cls, fn, rel)
+                    out |= got
                 continue
             if not isinstance(f, ast.Attribute):
                 continue
@@ -146,7 +156,18 @@ class CallGraph:
             for key in self.by_name.get(m, ()):
                 if key[0] and _family(self.defs[key][0]) == fam:
                     out.add(key)
+                    self._weak.add((node, key))
         return out
+
+    def _locals(self, fn):
+        key = id(fn)
+        if key not in self._loc:
+            names = {a.arg for a in fn.args.args + fn.args.kwonlyargs}
+            for x in ast.walk(fn):
+                if isinstance(x, ast.Name) and isinstance(x.ctx, ast.Store):
+                    names.add(x.id)
+            self._loc[key] = names
+        return self._loc[key]
 
     def _object_call(self, expr, cls, fn, rel):
         out = set()
@@ -162,12 +183,16 @@ class CallGraph:
         if isinstance(expr, ast.Attribute) and expr.attr in EXTERNAL_FIELDS:
             return out
         fam = _family(rel)
+        node = (cls or '', fn.name)
         for key in self.by_name.get('__call__', ()):
             if key[0] and _family(self.defs[key][0]) == fam:
                 out.add(key)
+                self._weak.add((node, key))
         return out
 
-    def reachable(self, entries):
+    def reachable(self, entries, strong=False):
+        """strong: follow only edges whose callee was resolved through the
+        class hierarchy / recovered types (not by bare method name)."""
         seen = set()
         work = [e for e in entries if e in self.defs]
         while work:
@@ -176,9 +201,39 @@ class CallGraph:
                 continue
             seen.add(n)
             for s in self.succ(n):
+                if strong and (n, s) in self._weak:
+                    continue
                 if s not in seen:
                     work.append(s)
         return seen
+
+    def with_state_writers(self, reach, strong=None):
+        """Close a reachable set under "configures what is observed": a
+        method that writes a field which a reachable method of the same class
+        hierarchy reads decides what that method returns (the configuration
+        methods set_* / fix_* of the objects an observation point evaluates),
+        so it — and what it calls — belongs to the code the property depends
+        on.  One round of writers, closed under calls."""
+        from .effects import direct
+        reads = {}              # defining class -> fields read
+        for node in (reach if strong is None else strong):
+            if node not in self.defs or not node[0]:
+                continue
+            w, r, sc, fc = direct(self.defs[node][1])
+            reads.setdefault(node[0], set()).update(r)
+        extra = set()
+        for cls, rd in reads.items():
+            family = set(self.repo.mro(cls)) | set(
+                self.repo.subclasses(cls, strict=True))
+            for (k2, m2), (rel, fn) in self.defs.items():
+                if k2 not in family or (k2, m2) in reach or m2 in EVALS:
+                    continue
+                w, r, sc, fc = direct(fn)
+                if w & rd:
+                    extra.add((k2, m2))
+        if not extra:
+            return reach
+        return reach | self.reachable(extra)
 
     def entries(self, spec):
         """spec: list of 'Class.method' | 'Class.*' | 'Class+.method'
